@@ -29,7 +29,7 @@ func checkC19(c *Ctx) {
 	}
 	whb2 := l.Func("", "*Node.writeHashBytes")
 	checkFormat(c, l, "FORMAT-v2-preimage", "v2 Node.writeHashBytes", whb2, false, want)
-	checkFormatX(c, l, "FORMAT-v2-preimage", "v2 EncodeBytes", l.Func("", "EncodeBytes"), false, true, []string{"U(len(param:bz)) W(local:buf) W(param:bz)"})
+	checkFormatX(c, l, "FORMAT-v2-preimage", "v2 EncodeBytes", l.Func("", "EncodeBytes"), false, true, []string{"U(len(arg1)) W(local) W(arg1)"})
 	// kinds agree with v1 (H = length-prefixed 32 bytes = B on the wire)
 	if whb1 := l1.Func("", "*Node.writeHashBytes"); whb1 != nil && whb2 != nil {
 		k := func(ld *Loaded, fn *ssa.Function) []string {
@@ -58,6 +58,10 @@ func checkC19(c *Ctx) {
 	} else {
 		c.anchorMissing("FORMAT-v2-preimage", "v1/v2 writeHashBytes")
 	}
+
+	// ---- (1b) same rebalancing decision as v1 (both are compared with the AVL rule)
+	c.rule("TABLE-balance", "v2 rebalancing decision over balance factor × child balance factor", 15)
+	checkBalanceTable(c, l, "TABLE-balance", "v2", l.Func("", "*Tree.balance"))
 
 	// ---- (2)
 	put := l.Func("", "*NodePool.Put")
